@@ -335,12 +335,16 @@ def gen_c08(rng, fs, i, cfg):
             # pools: worker recycling, many batches)
             ctx["bigsrc"] = rng.random() < 0.08
             if ctx["bigsrc"]:
-                lay = gen.gen_layout(rng, 3, 14, rng.choice(["fixed", "variable"]))
+                # many rows rather than many pixels: a span never splits a coarse row, so the
+                # number of tasks is bounded by the number of coarse rows
+                lay = gen.gen_layout(rng, 2, 120, rng.choice(["fixed", "variable"]))
+                while gen.nbins_of(lay) < 150:
+                    lay = gen.gen_layout(rng, 2, 120, rng.choice(["fixed", "variable"]))
                 ctx["layout"] = lay
         op = _same_layout_create(rng, cfg, lay, ctx.setdefault("symmetric", rng.random() < 0.7),
                                  ctx.setdefault("colspec", gen.gen_colspec(rng)),
-                                 180 if ctx["bigsrc"] else cfg.get("maxpx", 60),
-                                 density="dense" if ctx["bigsrc"] else
+                                 500 if ctx["bigsrc"] else cfg.get("maxpx", 60),
+                                 density="diag" if ctx["bigsrc"] else
                                  rng.choice([None, "dense", "dense", "sparse", "row", "lastrow"]))
         for ch in op["chunks"]:
             for col, dt in op["dtypes"].items():
@@ -380,8 +384,9 @@ def gen_c08(rng, fs, i, cfg):
                 "columns": None, "agg": None, "fault": None}
     op = gen_coarsen_op(rng, fs, rng.choice(have), i)
     if ctx.get("bigsrc") and rng.random() < 0.7:
-        op["chunksize"] = rng.choice([1, 1, 2])
-        op["nproc"] = rng.choice([2, 2, 3])
+        op["chunksize"] = 1
+        op["nproc"] = 2
+        op["factor"] = 2
         op["cli"] = False
     return op
 
